@@ -7,6 +7,7 @@ cd "$(dirname "$0")"
 python3 gen/src_constants.py
 python3 gen/ast_translate.py
 python3 gen/ast_translate64.py
+python3 gen/ast_translate_ptr.py
 cd coq
 coq_makefile -f _CoqProject -o Makefile > /dev/null
 timeout 7000 make -j16
